@@ -30,6 +30,10 @@ ASSUMPTIONS = [
 
 def generate(tape, tier="quick"):
     if tape.chance(1, 25):
+        # compositions of real library components only (sim/library.py)
+        from ..library import gen_library
+        return gen_library(tape)
+    if tape.chance(1, 25):
         # real library components stepping with relativedelta (months from a month-end day, mixed with days)
         from ..calendar import gen_calendar
         return gen_calendar(tape)
@@ -41,10 +45,20 @@ RULE = RULE + (" A 1/25 share of the runs is the calendar family (sim/calendar.p
                "judged without a model (announced time == model time == time after the update; received publication is the "
                "one for the requested time; run ends at or beyond the end time).")
 REAL = list(REAL) + ["CallbackGenerator / CallbackComponent with relativedelta steps (calendar family)"]
+LIB_OWN = ('lib-run-raises', 'lib-value')
+RULE = RULE + (" A 1/25 share is the library family (sim/library.py): CallbackGenerator | CsvReader (real file, irregular rows) -> "
+               "[WeightedSum with a static weight] -> [TimeTrigger] -> DebugConsumer / CsvWriter (file read back) / "
+               "DebugPushConsumer / ScheduleLogger, direct or through Scale; oracles here: the run does not raise and every consumer receives the publication nearest to its request.")
+REAL = list(REAL) + ["CsvReader, CsvWriter, TimeTrigger, WeightedSum, StaticCallbackGenerator, DebugPushConsumer, ScheduleLogger (library family)"]
 CAL_OWN = ('cal-run-raises', 'cal-value')
 
 
 def execute(sc):
+    if sc.get("engine") == "L":
+        from ..library import run_library
+        r = run_library(sc)
+        r["violations"] = [v for v in r["violations"] if v["oracle"] in LIB_OWN]
+        return r
     if sc.get("engine") == "K":
         from ..calendar import run_calendar
         r = run_calendar(sc)
@@ -62,6 +76,6 @@ def execute(sc):
 
 
 def known_sig(sc, v):
-    if sc.get("engine") == "K":
+    if sc.get("engine") in ("K", "L"):
         return None
     return e1_known_sig(sc, v)
